@@ -34,6 +34,7 @@ proof fn lemma_count_bound(p: Seq<bool>, t: Seq<bool>)
 
 //@unit src/metrics.rs fn _count_tp_fp_fn
 //@rule R20((usize, usize, usize))
+#[verifier::loop_isolation(false)]
 fn _count_tp_fp_fn(a: &[bool], b: &[bool]) -> (r: (usize, usize, usize))
     requires a.len() == b.len(),
     ensures r.0 == count_where(a@, b@, true, true), r.1 == count_where(a@, b@, true, false), r.2 == count_where(a@, b@, false, true),
@@ -166,6 +167,7 @@ proof fn lemma_count_true_bound(eqs: Seq<bool>, k: int)
 //@rule R4
 //@rule R32
 //@rule R9_cast
+#[verifier::loop_isolation(false)]
 pub fn accuracy<T: Ord>(predictions: &[T], targets: &[T]) -> (res: VtResult<f64>)
     ensures
         // a length mismatch is an error, not a panic
@@ -242,6 +244,7 @@ impl TpFpFn {
     pub closed spec fn vals(&self) -> Seq<(bool, usize, usize, usize, F1Info)> { self.values@ }
 //@unit src/metrics.rs fn micro_f1
 //@rule R20((usize, usize, usize))
+    #[verifier::loop_isolation(false)]
     fn micro_f1(self, beta: f64) -> (r: (F1PrecRec, Vec<F1Info>))
         requires
             // domain: the summed counts fit usize
@@ -295,6 +298,7 @@ impl TpFpFn {
 //@unit src/metrics.rs fn sequence_averaged_f1
 //@rule R20((f64, f64, f64))
 //@rule R9_cast
+    #[verifier::loop_isolation(false)]
     fn sequence_averaged_f1(self, beta: f64) -> (r: (F1PrecRec, Vec<F1Info>))
         requires
             // domain: every sequence's counts add up without overflow
